@@ -766,9 +766,13 @@ func (in *Interp) callBuiltin(fr *frame, fn *ssa.Builtin, args []Value) Value {
 		n := len(dst) + len(src)
 		if n <= cap(dst) {
 			res := dst[:n]
+			// src may alias dst's spare capacity (append(b[:k], b[j:]...)):
+			// memmove semantics, so snapshot src before storing
+			tmp := make([]Value, len(src))
 			for i, v := range src {
-				res[len(dst)+i] = copyVal(v)
+				tmp[i] = copyVal(v)
 			}
+			copy(res[len(dst):], tmp)
 			return res
 		}
 		// grow like the Go runtime's general shape (double, or exact if larger)
